@@ -47,6 +47,10 @@ claimed = {
  "C19": dict(text="Per configuration family the same (or a second) symbolic request is served again on the same container and compared with the first answer / a fresh twin; a frame monitor in the "
              "executor classifies every store made while serving by the allocation epoch of its target and reports stores to state that outlives the request; trace on/off must agree; values "
              "handed to one handler are scribbled on and must not reach the next.", design="5 (C19), 2.7"),
+ "C13": dict(text="Concurrent half: the real BoundedCachedCompressors code runs per thread in recording mode (channel operations become events with symbolic results); for every capacity, initial "
+             "fill, object kind and 2-3 threads one solver query over 8-bit timestamps and executed-flags decides whether any schedule reaches a state in which a thread is blocked forever in "
+             "Acquire*/Release*. Sequential half: a ledger provider wrapped around the real providers proves on every path of the C07 harness and of two consecutive ReadEntity calls that each "
+             "acquired object is released exactly once and not used afterwards.", design="5 (C13), 2.8"),
  "C06": dict(text="Enumerated filter counts per level and entry modes; each generated filter's behaviour (pass on / stop, replace the request-response pair, set an attribute, http middleware) "
              "is a symbolic bit; the solver proves on every path that the log of filter and handler invocations equals the reference sequence and that the pair and attributes passed on are "
              "the ones received, also after an earlier request on the same container.", design="5 (C06)"),
